@@ -119,6 +119,54 @@ def run_pool(ctx, rng, quick, pool, key_prefix, with_end=False, nwalk=None, enum
         batch.cleanup()
 
 
+def chained_shapes(rng, n):
+    """`"<"; BLOCK; ACTIONS; NEXT; "!"`: actions that nmfu has to chain through the end of a block (or place at the head of a clause /
+    handler) in front of every kind of next statement, including ones whose first transitions are else / restart transitions"""
+    N = gen.N
+    L = lambda b: N("match", p=N("lit", bs=b, form="s"))
+    num = lambda v: N("num", v=v, text=str(v))
+    inc = lambda: N("assign", var="n", e=N("bin", op="+", a=N("var", name="n"), b=num(1)))
+    out = []
+    for _ in range(n):
+        blocks = [
+            lambda: N("optional", body=[L(b"a")]),
+            lambda: N("optional", body=[L(b"a"), L(b"c")]),
+            lambda: N("try", body=[L(b"a")], reasons=rng.choice([None, ["nomatch"]]), handler=[]),
+            lambda: N("try", body=[L(b"a"), L(b"c")], reasons=["nomatch"], handler=[N("hook", name="g")]),
+            lambda: N("foreach", body=[L(b"aa")], do=[N("assign", var="m", e=N("bin", op="+", a=N("var", name="m"), b=num(1)))]),
+            lambda: N("if", branches=[(N("bin", op="==", a=N("var", name="m"), b=num(0)), [L(b"a")])], orelse=None),
+            lambda: N("if", branches=[(N("bin", op="==", a=N("var", name="m"), b=num(7)), [L(b"a")])], orelse=[L(b"c")]),
+            lambda: N("case", greedy=False, clauses=[N("clause", preds=[N("lit", bs=b"a", form="s")], body=[], prio=None),
+                                                     N("clause", preds=[N("lit", bs=b"c", form="s")], body=[L(b"d")], prio=None)]),
+        ]
+        actions = rng.choice([
+            lambda: [N("hook", name="h")], lambda: [inc()], lambda: [N("hook", name="h"), inc()], lambda: [inc(), N("hook", name="h")],
+            lambda: [N("appendc", var="s", e=num(65)), N("hook", name="h")], lambda: [N("hook", name="h"), N("hook", name="g")],
+        ])
+        nexts = [
+            lambda: [N("case", greedy=False, clauses=[N("clause", preds=[N("lit", bs=b"b", form="s")], body=[N("assign", var="r", e=num(1))], prio=None),
+                                                      N("clause", preds=["else"], body=[N("assign", var="r", e=num(2)), N("wait", p=N("lit", bs=b">", form="s"))], prio=None)])],
+            lambda: [N("wait", p=N("lit", bs=b">", form="s"))],
+            lambda: [N("wait", p=N("lit", bs=b"b>", form="s"))],
+            lambda: [N("case", greedy=False, clauses=[N("clause", preds=[N("lit", bs=b"b", form="s"), "else"], body=[N("hook", name="g")], prio=None)]), L(b">")],
+            lambda: [L(b"b")],
+            lambda: [N("match", p=N("rx", tree=("op", ("set", [("ch", 97), ("ch", 99)], True), "+"), binary=False)), L(b"a")],
+        ]
+        shape = rng.random()
+        if shape < 0.7:
+            body = [L(b"<"), rng.choice(blocks)()] + actions() + rng.choice(nexts)() + [N("hook", name="t"), L(b"!")]
+        elif shape < 0.85:
+            body = [N("case", greedy=False, clauses=[
+                N("clause", preds=[N("lit", bs=b"k", form="s")], body=actions() + rng.choice(nexts)() + [N("assign", var="r", e=num(3))], prio=None),
+                N("clause", preds=[N("lit", bs=b"<", form="s")], body=[rng.choice(blocks)()] + actions(), prio=None)]), N("hook", name="t"), L(b"!")]
+        else:
+            body = [N("try", body=[L(b"<"), L(b"q")], reasons=None, handler=actions() + rng.choice(nexts)()), N("hook", name="t"), L(b"!")]
+        outs = [N("out", name="n", typ="int", signed=None, width=None, default=0), N("out", name="m", typ="int", signed=None, width=None, default=0),
+                N("out", name="r", typ="int", signed=None, width=None, default=0), N("out", name="s", typ="str", size=3, default=None)]
+        out.append(N("prog", outs=outs, hooks=["h", "g", "t"], fcodes=[], ycodes=[], macros=[], body=body, args=[]))
+    return out
+
+
 def run(ctx: Ctx):
     rng = ctx.rng
     quick = ctx.quick
@@ -134,6 +182,17 @@ def run(ctx: Ctx):
         for ast, *_ in pl:
             for k, v in gen.kinds_of(ast).items():
                 kinds[k] = kinds.get(k, 0) + 1
+    shaped = 0
+    for ast in chained_shapes(rng, 40 if quick else 400):
+        src = gen.prog_src(ast)
+        args = [rng.choice(["-O0", "-O1", "-O2", "-O3"]), "-findirect-start-ptr"]
+        r = nm.compile_source(src, args, name="p0", keep=False)
+        gen_n += 1
+        if r.ok:
+            pool.append((ast, src, args, None))
+            shaped += 1
+            acc_n += 1
+    ctx.cov["chained_action_shapes_accepted"] = shaped
     ctx.cov.update({"programs_generated": gen_n, "programs_accepted": acc_n})
     ctx.extra["node_kinds_in_accepted"] = kinds
     run_pool(ctx, rng, quick, pool, "c01")
